@@ -55,18 +55,18 @@ class C10Oracle(worldprop.Oracle):
             try:
                 text = d.serialize(format="json", **o)
             except Exception as e:
-                self.fail(idx, "serialize(format='json') raised", doc=di, exc=repr(e)[:300], feats=sorted(c01.diagnose(d)))
+                self.fail(idx, "serialize(format='json') raised", doc=di, exc=repr(e)[:300], feats=sorted(c01.diagnose(d)) + (["foreign-formal"] if foreign_formal(d) else []))
                 return
             tree = I.py_to_jv(json.loads(text))
             got = spec_read_json(tree)
             if got == ["none"]:
                 self.fail(idx, "the emitted PROV-JSON is not readable by the specification reader", doc=di,
-                          feats=sorted(c01.diagnose(d)), text=text[:600])
+                          feats=sorted(c01.diagnose(d)) + (["foreign-formal"] if foreign_formal(d) else []), text=text[:600])
                 return
             got = canon_content(got)
             if got != want:
                 self.fail(idx, "the specification reader recovers another content from the emitted PROV-JSON", doc=di,
-                          feats=sorted(c01.diagnose(d)), got=dumps(got)[:700], want=dumps(want)[:700])
+                          feats=sorted(c01.diagnose(d)) + (["foreign-formal"] if foreign_formal(d) else []), got=dumps(got)[:700], want=dumps(want)[:700])
                 return
 
 
@@ -80,26 +80,41 @@ class C10Oracle(worldprop.Oracle):
             try:
                 text = d.serialize(format="xml", force_types=ft)
             except Exception as e:
-                self.fail(idx, "serialize(format='xml') raised", doc=di, exc=repr(e)[:300], feats=sorted(c01.diagnose(d)))
+                self.fail(idx, "serialize(format='xml') raised", doc=di, exc=repr(e)[:300], feats=sorted(c01.diagnose(d)) + (["foreign-formal"] if foreign_formal(d) else []))
                 return
             got = spec_read_xml(text)
             if got == ["none"]:
                 self.fail(idx, "the emitted PROV-XML is not readable by the specification reader", doc=di, force_types=ft,
-                          feats=sorted(c01.diagnose(d)), text=text[:900])
+                          feats=sorted(c01.diagnose(d)) + (["foreign-formal"] if foreign_formal(d) else []), text=text[:900])
                 return
             got = canon_content(got)
             if got != want:
                 self.fail(idx, "the specification reader recovers another content from the emitted PROV-XML", doc=di,
-                          force_types=ft, feats=sorted(c01.diagnose(d)), got=dumps(got)[:700], want=dumps(want)[:700])
+                          force_types=ft, feats=sorted(c01.diagnose(d)) + (["foreign-formal"] if foreign_formal(d) else []), got=dumps(got)[:700], want=dumps(want)[:700])
                 return
 
 
+def foreign_formal(d):
+    """does some record hold, as an ordinary attribute, a PROV attribute name that is formal for other kinds only?"""
+    from prov.constants import PROV_ATTRIBUTES
+    for c in [d] + list(d.bundles):
+        for r in c.get_records():
+            for a, _ in r.attributes:
+                if a in PROV_ATTRIBUTES and a not in r.FORMAL_ATTRIBUTES:
+                    return True
+    return False
+
+
 def classify(f, ops):
+    if "foreign-formal" in (f.get("feats") or []) and f.get("what", "").startswith("the specification reader recovers another content"):
+        return "C10-F5"
     c = c01.classify(f, ops)
     return {"C01-F1": "C10-F1", "C01-F2": "C10-F2", "C01-F3": "C10-F3", "C01-F4": "C10-F4"}.get(c)
 
 
 def run(tier, seed, log, model_runs=True, enlarged=False):
+    from harness import progs
+    progs.FOREIGN_FORMAL_RATE = 0      # finding C10-F5 lives there; the fixed program of progs.foreign_formal_programs replays it
     return worldprop.run(PROP, tier, seed, log, model_runs, enlarged, C10Oracle, ["json", "mixed"],
                          n_quick=120, n_thorough=2000, classify=classify, nontrivial=c01.nontrivial,
                          ops_range_quick=(6, 20), ops_range_thorough=(8, 36),
